@@ -60,7 +60,11 @@ class Check(HCheck):
             al.rule(A, "path2"),
         ]
         d = 4 if thorough else 3
+        # sibling pages whose stems share their first 74 bytes (order decided in the tail blocks)
+        ll = [A + L.long_stem(n) for n in (75, 76, 148, 149)] + [A + b"p:" + b"a" * 72 + b"\x00\x00|", A + b"p:" + b"a" * 71 + b"|"]
+        lops = [al.page(u, i % 2 == 0) for i, u in enumerate(ll)] + [al.page(ll[1] + b"p:k|")]
         return [
+            Space(Cfg("domain"), lops, 5 if thorough else 4, roots=[(al.page(A),)], name="pages/long-siblings"),
             Space(Cfg("domain"), ops, d, roots=[al.R0, al.R1, al.R4], name="pages/domain"),
             Space(Cfg("subdomain", {Ab: "path2"}), ops, d - 1, roots=[R5], name="pages/subdomain+path2"),
         ]
